@@ -181,52 +181,113 @@ def entry_points(prog, rep):
 
 
 def has_compat(prog, rep):
+    """has_compat(cp) = (cp is a scalar value c and NFKC(c) is not the one-character string c). Decided
+    semantically: NFKC(c) is an unknown non-empty sequence that is [c] (case A), starts with c and goes on
+    (case B), or starts with another character (case C); the string `c.to_string()` has content [c]; a string
+    collected from the sequence has the sequence's content; string equality is content equality. Whatever the
+    code does with these (compare strings, step the iterator twice, ...), it must answer false exactly in A."""
     key = COMMON + "has_compat"
     b = prog.body(key)
     if b is None:
         rep.ob("has-compat", key, False, "not found")
         return
     rep.fn(key)
+    from ..models import deref_all
 
     class W(OracleWorld):
         def char_from_u32(self, m, st, v):
             if st.choose(("from_u32",), ["None", "Some"]) == "None":
                 return ip.none()
-            return ip.some(ip.Sym(("char-of", v.name), "char"))
+            return ip.some(ip.Sym("c", "char"))
 
-    uf = {
-        "<T as alloc::string::ToString>::to_string": "to_string",
-        "<&'a str as unicode_normalization::UnicodeNormalization<core::str::iter::Chars<'a>>>::nfkc": "nfkc",
-        "<&'a str as unicode_normalization::UnicodeNormalization<core::str::iter::Chars<'a>>>::nfkd": "nfkd",
-        "<&'a str as unicode_normalization::UnicodeNormalization<core::str::iter::Chars<'a>>>::nfc": "nfc",
-        "<&'a str as unicode_normalization::UnicodeNormalization<core::str::iter::Chars<'a>>>::nfd": "nfd",
-        "core::iter::traits::iterator::Iterator::collect": "collect",
-        "core::cmp::PartialEq::ne": "ne",
-        "core::cmp::PartialEq::eq": "eq",
-        "<alloc::string::String as core::cmp::PartialEq>::eq": "eq",
-        "<alloc::string::String as core::cmp::PartialEq>::ne": "ne",
-    }
-    m = ip.Machine(prog, W(prog, uf=uf))
+        def call(self, m, st, callee, args, term):
+            p = callee["path"]
+            name = callee["name"]
+            a0 = deref_all(m, st, args[0]) if args else None
+            if name == "to_string" and isinstance(a0, ip.Sym) and a0.name == "c":
+                return ip.Str(("seq", "c"))
+            if name == "from" and isinstance(a0, ip.Sym) and a0.name == "c" and "String" in callee["path"]:
+                return ip.Str(("seq", "c"))
+            if name in ("nfkc",) and "UnicodeNormalization" in p:
+                src = a0
+                if (isinstance(src, ip.Sym) and src.name == "c") or (isinstance(src, ip.Str) and src.tag == ("seq", "c")):
+                    case = st.choose(("nfkc-case",), ["A", "B", "C"])
+                    return ip.Opq("nfkc-seq", (case, 0))
+                raise ip.AnalysisError("nfkc of %r (not the character under test)" % (src,))
+            if name in ("nfc", "nfd", "nfkd") and "UnicodeNormalization" in p:
+                return ip.Opq("other-normal-form", (name,))
+            if name == "collect" and isinstance(a0, ip.Opq) and a0.kind == "other-normal-form":
+                st.emit(("wrong-form", a0.data[0]))
+                return ip.Str(("seq", "form", a0.data[0]))
+            if name == "collect" and isinstance(a0, ip.Opq) and a0.kind == "nfkc-seq":
+                case, pos = a0.data
+                if pos != 0:
+                    raise ip.AnalysisError("collect of a partly consumed NFKC stream")
+                return ip.Str(("seq", "c")) if case == "A" else ip.Str(("seq", "other", case))
+            if name == "next" and args and isinstance(args[0], ip.Ref):
+                from ..models import _innermost_ref
+
+                ref, it = _innermost_ref(m, st, args[0])
+                if isinstance(it, ip.Opq) and it.kind == "nfkc-seq":
+                    case, pos = it.data
+                    m.store(st, ref.loc, ip.Opq("nfkc-seq", (case, pos + 1)))
+                    if pos == 0:
+                        return ip.some(ip.Sym("c", "char") if case in ("A", "B") else ip.Sym("d", "char"))
+                    if pos == 1:
+                        if case == "A":
+                            return ip.none()
+                        if case == "B":
+                            return ip.some(ip.Sym(("more", pos), "char"))
+                    return ip.some(ip.Sym(("more", pos), "char")) if st.choose(("nfkc-more", pos), [True, False]) else ip.none()
+            if name in ("eq", "ne") and len(args) == 2:
+                x, y = deref_all(m, st, args[0]), deref_all(m, st, args[1])
+                if isinstance(x, ip.Str) and isinstance(y, ip.Str):
+                    r = x.tag == y.tag
+                    return ip.boolean(r if name == "eq" else not r)
+            return OracleWorld.call(self, m, st, callee, args, term)
+
+        def str_eq(self, st, a, b_):
+            return a.tag == b_.tag
+
+        def compare_hook(self, st, op, a, b_):
+            names = {getattr(a, "name", None), getattr(b_, "name", None)}
+            if op in ("Eq", "Ne") and names == {"c", "d"}:
+                return op == "Ne"  # case C: the first character of NFKC(c) is not c
+            if op in ("Eq", "Ne") and names == {"c"} and isinstance(a, ip.Sym) and isinstance(b_, ip.Sym):
+                return op == "Eq"
+            return None
+
+    m = ip.Machine(prog, W(prog))
     try:
         outs = m.run(m.start(key, [ip.Sym("cp", "u32")]))
     except ip.AnalysisError as e:
         rep.analysis_error("has-compat", key, e, b.where())
         return
-    res = {}
+    bad = []
+    seen = set()
     for o in outs:
-        br = dict((k[0], v) for k, v in o.state.log if k[0] == "from_u32").get("from_u32")
-        if isinstance(o.value, ip.I):
-            res.setdefault(br, []).append(("const", bool(o.value.v)))
-        elif isinstance(o.value, ip.Sym):
-            res.setdefault(br, []).append(("term", o.value.name))
-        else:
-            # a decided uninterpreted bool shows up as a fork: recover the term from the log
-            res.setdefault(br, []).append(("other", repr(o.value)))
-    rep.ob("has-compat", "non-scalar values", res.get("None") == [("const", False)], "for a value that is not a Unicode scalar value has_compat must be false; extracted %r" % (res.get("None"),), b.where())
-    cs = ("str", ("uf", "to_string", ("&", ("sym", ("char-of", "cp")))))
-    want = ("uf", "ne", ("&", cs), ("&", ("str", ("uf", "collect", ("opq", "uf", ("nfkc", cs))))))
-    got = res.get("Some")
-    rep.ob("has-compat", "cs != cs.nfkc().collect()", got == [("term", want)], "extracted %r; required %r" % (got, want), b.where(), sample=True)
+        dec = {k[0]: v for k, v in o.state.log if isinstance(k, tuple) and k[0] in ("from_u32", "nfkc-case")}
+        if o.kind != "return" or not isinstance(o.value, ip.I):
+            bad.append("a path ends with %s %r" % (o.kind, o.value if o.kind == "return" else o.info))
+            continue
+        res = bool(o.value.v)
+        if dec.get("from_u32") == "None":
+            seen.add("non-scalar")
+            if res:
+                bad.append("for a value that is not a Unicode scalar value has_compat must be false")
+            continue
+        case = dec.get("nfkc-case")
+        if case is None:
+            wf = [e[1] for e in o.state.events if e[0] == "wrong-form"]
+            bad.append("a path for a scalar value answers %s without consulting NFKC%s" % (res, " (it uses %s)" % wf[0].upper() if wf else ""))
+            continue
+        seen.add(case)
+        if res != (case != "A"):
+            bad.append("NFKC(c) %s: has_compat answers %s" % ({"A": "is exactly c", "B": "starts with c and goes on", "C": "starts with another character"}[case], res))
+    for need in ("non-scalar", "A", "B", "C"):
+        if need not in seen and not bad:
+            bad.append("no path for the case %s" % need)
+    rep.ob("has-compat", "has_compat(cp) = NFKC(c) differs from c (false for non-scalar values)", not bad, "; ".join(sorted(set(bad))[:2]), b.where(), key="has-compat", sample=True)
 
 
 def registry_crosscheck(prog, rep, res):
